@@ -631,7 +631,7 @@ func vfC08Pair(mk func(name string) *vfCW, r1, r2 *vfCReq) {
 
 // vfC08Many: like vfC08Pair for n requests; the outcome must equal that of SOME sequential order.
 func vfC08Many(mk func(name string) *vfCW, reqs []*vfCReq) {
-	vfThreads(vfParam("preempt", 2))
+	vfThreads(vfParam("preempt3", 1))
 	wc := mk("concurrent")
 	ac := wc.actorFor()
 	done := make(chan int, len(reqs))
